@@ -1,0 +1,11 @@
+//go:build !verif
+
+// Package verifhook provides observation points for the external verification harness.
+// Without the "verif" build tag every hook is a no-op that the compiler removes.
+package verifhook
+
+// Enabled reports whether hooks are compiled in.
+const Enabled = false
+
+// At marks an observation point.
+func At(point string, args ...any) {}
